@@ -322,4 +322,89 @@ def intRanges (s : Str) (d : Char := ',') (rd : Char := '-') : Option (List (Nat
     let t := formatIntList l
     if t.isEmpty then some [] else mapM? boundsTok (splitOn ',' t)
 
+/-! ## acceptance: what it means for ANY text to be a correct quoting of an argument list
+
+The property statement does not fix the text the encoders produce, only how it is read back.
+`shAccepts t args` / `crtAccepts t args` say that the reference lexer reads `t` as exactly `args`
+(the CRT one in all three historical variants).  The correspondence check applies these to the text
+the IMPLEMENTATION produced (driver operations `shv` / `cmdv` / `esav`), so an implementation that
+switches to another correct quoting still corresponds. -/
+
+def shAccepts (t : Str) (args : List Str) : Bool := shSplit t == some args
+
+def crtAccepts (t : Str) (args : List Str) : Bool :=
+  crtSplit .documented t == args && crtSplit .legacy t == args && crtSplit .modern t == args
+
+inductive ShellStyle where
+  | sh | cmd
+deriving DecidableEq, Repr
+
+/-- which reader the text of `escape_shell_args(args, style=style)` is meant for (`none` = ValueError) -/
+def styleOf (style : Str) (win32 : Bool) : Option ShellStyle :=
+  let st := if style.isEmpty then (if win32 then ['c', 'm', 'd'] else ['s', 'h']) else style
+  if st = ['s', 'h'] then some .sh
+  else if st = ['c', 'm', 'd'] then some .cmd
+  else none
+
+/-! ## quoting with an arbitrary "needs quotes" predicate (args2cmd) and an arbitrary splice (args2sh) -/
+
+/-- `args2cmd` with the decision "wrap this argument in double quotes" left open: `qp` -/
+def cmdArgQ (qp : Str → Bool) (a : Str) : Str :=
+  if qp a then dq :: cmdGo true 0 a else cmdGo false 0 a
+
+def args2cmdQ (qp : Str → Bool) (args : List Str) : Str := join [' '] (args.map (cmdArgQ qp))
+
+/-- `arg.replace("'", splice)` -/
+def replSqWith (splice : Str) : Str → Str
+  | [] => []
+  | c :: cs => if c = sq then splice ++ replSqWith splice cs else c :: replSqWith splice cs
+
+/-- `args2sh` with the text that stands for an embedded single quote left open: `splice`, and the
+    decision "leave this argument bare" left open: `bare` -/
+def shQuoteWith (bare : Str → Bool) (splice : Str) (a : Str) : Str :=
+  if a.isEmpty then [sq, sq]
+  else if bare a then a
+  else sq :: (replSqWith splice a ++ [sq])
+
+def args2shWith (bare : Str → Bool) (splice : Str) (args : List Str) : Str :=
+  join [' '] (args.map (shQuoteWith bare splice))
+
+/-! ## pieces: a syntactic class of shell words that is always read back literally
+
+A shell word written as a sequence of pieces - a single-quoted part, a backslash-escaped character,
+a double-quoted part without `"` `\` `$` backquote, a bare run of inert characters - denotes the
+concatenation of the piece values (`Props.sh_pieces_sound`). -/
+
+inductive ShPiece where
+  | sgl (s : Str)     -- `'s'`
+  | esc (c : Char)    -- `\c`
+  | dbl (s : Str)     -- `"s"`
+  | bare (s : Str)    -- `s`
+deriving DecidableEq, Repr
+
+def dblPlain (c : Char) : Bool := c != dq && c != bsl && c != '$' && c != '`' && c != nul
+
+def ShPiece.ok : ShPiece → Bool
+  | .sgl s => s.all fun c => c != sq && c != nul
+  | .esc c => c != '\n' && c != nul
+  | .dbl s => s.all dblPlain
+  | .bare s => !s.isEmpty && s.all shLiteral
+
+def ShPiece.render : ShPiece → Str
+  | .sgl s => sq :: (s ++ [sq])
+  | .esc c => [bsl, c]
+  | .dbl s => dq :: (s ++ [dq])
+  | .bare s => s
+
+def ShPiece.value : ShPiece → Str
+  | .sgl s => s
+  | .esc c => [c]
+  | .dbl s => s
+  | .bare s => s
+
+/-- a word = a non-empty list of pieces -/
+def wordRender (w : List ShPiece) : Str := (w.map ShPiece.render).flatten
+def wordValue (w : List ShPiece) : Str := (w.map ShPiece.value).flatten
+def wordOk (w : List ShPiece) : Bool := !w.isEmpty && w.all ShPiece.ok
+
 end C14
